@@ -197,19 +197,22 @@ fn judge_build(build: Build, sc: &Scenario, mut st: Option<&mut Stats>) -> Optio
                             return false;
                         }
                     }
-                    // (no-alloc build: a sentence whose payload exceeds the fixed 384-byte buffer may
-                    // be rejected for capacity whatever its checksum - C18's carve-out, not judged)
-                    let over_capacity = build == Build::None && lx.field(&l.bytes, 5).map_or(false, |p| p.len() > 384);
                     // "otherwise well-formed" is ground truth from the generator for the fields the
                     // property lists, and for the rest of the rendering (tag block, delimiter, number
                     // padding, trailing bytes ...) it is decided by the real code: the same rendering
                     // with a *correct* checksum and the header of an unfragmented sentence must be
-                    // accepted by a fresh parser of this build. Otherwise the line is rejected for
-                    // its form or for capacity whatever its checksum - not the gate's business.
-                    let clause3 = l.form_ok && v <= 0xff && lx.fields.len() == 7 && v != x as u32 && !over_capacity;
+                    // accepted by a fresh parser. Otherwise the line is rejected for its form
+                    // whatever its checksum - not the gate's business.
+                    // The property has no exemption for capacity: a sentence whose payload exceeds
+                    // the no-alloc build's 384-byte buffer gets the checksum error there too (the
+                    // repair of D8 saw to that). Its rendering cannot be probed in that build (the
+                    // probe would be refused for capacity), so the std build is asked instead.
+                    let over_capacity = build == Build::None && lx.field(&l.bytes, 5).map_or(false, |p| p.len() > 384);
+                    let probe_build = if over_capacity { Build::Std } else { build };
+                    let clause3 = l.form_ok && v <= 0xff && lx.fields.len() == 7 && v != x as u32;
                     let rendering_accepted = clause3
                         && match reheaded_unfragmented(&l.bytes) {
-                            Some(probe) => matches!(new_node(build).parse(&probe, false, false), Outcome::Complete(ref s, _) if s.n == 1),
+                            Some(probe) => matches!(new_node(probe_build).parse(&probe, false, false), Outcome::Complete(ref s, _) if s.n == 1),
                             None => false,
                         };
                     if clause3 && !rendering_accepted {
